@@ -165,11 +165,12 @@ def h_two_sources_impl(a, inst):
 import datetime as _dt  # noqa: E402
 
 ONE_S = _dt.timedelta(seconds=1)
+TWO_S = _dt.timedelta(seconds=2)
 
 
 # ------------------------------------------------------------------ time windows: the second thread is the scheduler's timer thread
 def _winst(tier):
-    return [{"op": o, "seq": q, "P": 1, "gran": "coarse" if tier == "quick" else "fine"} for o in ("window_with_time", "window_with_time_or_count", "buffer_with_time")
+    return [{"op": o, "seq": q, "P": 1, "gran": "coarse" if tier == "quick" else "fine"} for o in ("window_with_time", "window_with_time_or_count", "buffer_with_time", "window_with_time_overlap")
             for q in ("n_c", "n_n_c", "n_e")]
 
 
@@ -189,6 +190,8 @@ def h_window_timer(a, inst):
             sch = TimeoutScheduler()
             if inst["op"] == "window_with_time":
                 obs = src.pipe(ops.window_with_time(ONE_S, scheduler=sch), ops.do_action(lambda w: w.subscribe(down.on_next, down.on_error, down.on_completed)))
+            elif inst["op"] == "window_with_time_overlap":
+                obs = src.pipe(ops.window_with_time(TWO_S, ONE_S, scheduler=sch), ops.do_action(lambda w: w.subscribe(down.on_next, down.on_error, down.on_completed)))
             elif inst["op"] == "window_with_time_or_count":
                 obs = src.pipe(ops.window_with_time_or_count(ONE_S, 2, scheduler=sch), ops.do_action(lambda w: w.subscribe(down.on_next, down.on_error, down.on_completed)))
             else:
@@ -222,6 +225,93 @@ def h_window_timer(a, inst):
     return ok
 
 
+# ------------------------------------------------------------------ three source threads
+def _tinst(tier):
+    out = []
+    for name in ("combine_latest", "zip", "merge", "with_latest_from"):
+        for seqs in (("n_n_c", "n_n_c", "n_n_c"), ("n_c", "n_n_c", "n_e")):
+            if tier == "quick" and seqs[0] != "n_n_c" and name != "combine_latest":
+                continue
+            gate.GRANULARITY = "coarse"
+            L = _three(name, seqs, [])[1] + 2
+            lo, acc = 0, 0
+            for p in range(L + 1):
+                acc += (L - p) * 4
+                if acc >= 1500 or p == L:
+                    out.append({"comb": name, "seqs": list(seqs), "P": 2, "lo": lo, "hi": p if p < L else 10 ** 6})
+                    lo, acc = p + 1, 0
+    return out
+
+
+def _three(name, seqs, preempts):
+    """B and C emit their first element, then wait; A waits for both, then emits: its downstream callback releases B and C, which
+    emit their second element.  With the round-robin fall-back of the gate (a blocked thread hands over to the next one) a single
+    preemption inside A's downstream callback lets both B and C arrive while A is still inside"""
+    with gate.install(*LOCKMODS):
+        gate.watch(*WATCH)
+        g = gate.Gate()
+        srcs = [ThreadSource(), ThreadSource(), ThreadSource()]
+        down = Downstream(g)
+        vals = []
+        ev = [gate.GateEvent(), gate.GateEvent(), gate.GateEvent()]  # B emitted, C emitted, go
+        orig = down.on_next
+
+        def on_next(v):
+            vals.append(v)
+            ev[2].set()
+            orig(v)
+        COMB[name](srcs).subscribe(on_next, down.on_error, down.on_completed)
+
+        def prog(i):
+            seq = [(k, (i, v)) for k, v in SEQS[seqs[i]]]
+
+            def run():
+                if i == 0:
+                    ev[0].wait()
+                    ev[1].wait()
+                    srcs[0].emit(seq)
+                else:
+                    srcs[i].emit(seq[:1])
+                    ev[i - 1].set()
+                    if name in ("combine_latest", "with_latest_from"):
+                        ev[2].wait()
+                    srcs[i].emit(seq[1:])
+            return run
+        for i in range(3):
+            g.spawn(prog(i))
+        r = g.run(preempts, fallback="rr")
+        ok = r == "done" and not g.errors and (not down.overlap) and grammar_ok(down.log)
+        if name == "combine_latest":
+            # each emitted tuple differs from the previous one in exactly the slot of the source that just notified (no combination
+            # is skipped or delivered twice)
+            for x, y in zip(vals, vals[1:]):
+                if sum(1 for u, w in zip(x, y) if u != w) != 1:
+                    ok = False
+        return ok, g.steps
+
+
+@harness(instances=_tinst, p0=I(lambda i: i["lo"], lambda i: min(i["hi"], 400)), pos=I(0, 400, n=lambda i: i["P"] - 1), tgt=I(0, 1, n=lambda i: i["P"]),
+         timeout=(240, 1800), stock=False)
+def h_three_sources(a, inst):
+    """three source threads, two ordered preemptions with relative targets: while one source is inside the downstream callback the
+    two others can both arrive (write their slots, queue on the lock)"""
+    gate.GRANULARITY = "coarse"
+    key = ("3", inst["comb"], tuple(inst["seqs"]))
+    if key not in _BASE:
+        with gate.untraced():
+            _BASE[key] = _three(inst["comb"], inst["seqs"], [])
+    ok0, L = _BASE[key]
+    if not ok0:
+        return False
+    preempts = gate.pick_schedule(a, inst, L, 2)
+    if preempts is None:
+        return True
+    with gate.untraced():
+        ok, _ = _three(inst["comb"], inst["seqs"], preempts)
+    cover("ran")
+    return ok
+
+
 ENCODED = ["reactivex/observable/zip.py", "reactivex/observable/combinelatest.py", "reactivex/observable/withlatestfrom.py",
            "reactivex/observable/merge.py", "reactivex/operators/_merge.py", "reactivex/operators/_amb.py",
            "reactivex/internal/concurrency.py", "reactivex/observable/observable.py"]
@@ -229,6 +319,8 @@ BOUNDS = {"quick": "merge, merge_all, flat_map, zip, combine_latest, with_latest
                    "short sequences (1..2 elements then completed / error, or only a terminal), 1 preemption at instruction-level "
                    "yield points inside the operator modules, internal/concurrency.py, every lock operation, and inside the downstream "
                    "callbacks", "thorough": "2 preemptions"}
+BOUNDS["quick"] += ("; three source threads on combine_latest / zip / merge / with_latest_from with 2 ordered preemptions (coarse yield "
+                    "points); window / buffer operators on a gated timer thread incl. overlapping windows, 1 preemption")
 ASSUMES = ["gate-aware RLock shims replace the module-level lock names of the operator / observable / disposable modules",
            "the downstream observer is the user's observer passed to the public subscribe(); AutoDetachObserver takes no lock, so an "
            "overlap below it is an overlap in the user's callbacks", "window_with_time / window_with_time_or_count need the gated timer "
